@@ -413,9 +413,9 @@ type BytesFrameReader struct {
 func NewBytesFrameReader(r io.Reader) (*BytesFrameReader, error) {
 	var version [2]byte
 
-	switch _, err := r.Read(version[:]); {
-	case errors.Is(err, io.EOF):
-	case err != nil:
+	switch _, err := io.ReadFull(r, version[:]); {
+	case err == nil, errors.Is(err, io.EOF), errors.Is(err, io.ErrUnexpectedEOF):
+	default:
 		return nil, errors.Wrap(err, "version")
 	}
 
